@@ -25,7 +25,12 @@ func init() {
 	props["C10"] = propRunner{gen: genC10, exec: execClnt}
 }
 
-func execClnt(line string) (string, bool) { return "*", true }
+func execClnt(line string) (string, bool) {
+	if strings.HasPrefix(line, "clntio ") {
+		return "accept", true // the observation is the line; the driver is the judge
+	}
+	return "*", true
+}
 
 const poolSize = 65535
 
@@ -537,7 +542,7 @@ func genC10(c *Ctx) {
 		for cut := 0; cut <= streamLen; cut += step {
 			scens = append(scens, scen{"cut", cut})
 		}
-		for _, nm := range []string{"garbage", "oversize", "oversize-huge", "undersize", "unknown-tag", "unmount", "enter-during-failure"} {
+		for _, nm := range []string{"garbage", "oversize", "oversize-huge", "undersize", "unknown-tag", "unmount", "enter-during-failure", "first-enters-during-failure"} {
 			scens = append(scens, scen{nm, r.Intn(streamLen + 1)})
 		}
 		for _, sc := range scens {
@@ -554,18 +559,24 @@ func genC10(c *Ctx) {
 				c.oracleFail("C10/connect", err.Error(), line)
 				continue
 			}
+			iow := startIOWatch(cl)
 			var unpark chan bool
 			var unsub func()
-			if sc.name == "enter-during-failure" {
-				// one more caller is held between the enqueue and the hand-off while the failure happens
+			if sc.name == "enter-during-failure" || sc.name == "first-enters-during-failure" {
+				// one caller is held between the enqueue and the hand-off while the failure happens: the last of
+				// the K (nobody behind it on the pending list) or the first (the others are behind it)
 				unpark = make(chan bool)
 				seen := 0
+				which := K
+				if sc.name == "first-enters-during-failure" {
+					which = 1
+				}
 				var mu sync.Mutex
 				unsub = subscribe(func(point string, args []interface{}) {
 					if point == "rpcnb.enqueued" && args[0].(*g.Clnt) == cl {
 						mu.Lock()
 						seen++
-						mine := seen == K // the last of the K callers: on the pending list, not yet handed to the writer
+						mine := seen == which // on the pending list, not yet handed to the writer
 						mu.Unlock()
 						if mine {
 							select {
@@ -646,12 +657,12 @@ func genC10(c *Ctx) {
 				g.PackRclunk(fc)
 				g.SetTag(fc, 54321)
 				bw(b, fc.Pkt)
-			case "unmount", "enter-during-failure":
+			case "unmount", "enter-during-failure", "first-enters-during-failure":
 				cl.Unmount()
 			}
 			// a cut in the middle of a frame is only a failure once the stream ends
 			midFrame := sc.name != "cut" && cut != ends0(ends, cut)
-			if midFrame && sc.name != "unmount" && sc.name != "enter-during-failure" {
+			if midFrame && sc.name != "unmount" && !strings.HasSuffix(sc.name, "during-failure") {
 				// garbage appended to a partial frame: the loop waits for the announced size; end the stream
 				time.Sleep(2 * time.Millisecond)
 				b.Close()
@@ -675,7 +686,7 @@ func genC10(c *Ctx) {
 			} else {
 				for j, q := range reqs {
 					x := res[q.caller]
-					wantOK := j < complete && sc.name != "unmount" && sc.name != "enter-during-failure"
+					wantOK := j < complete && sc.name != "unmount" && !strings.HasSuffix(sc.name, "during-failure")
 					if x.err == nil && !bytes.Equal(x.rc.Data, payloadOf(q.caller, msize)) {
 						c.oracleFail("C10/false-success/"+sc.name, fmt.Sprintf("call %d returned success with the wrong data", q.caller), line)
 					}
@@ -708,7 +719,7 @@ func genC10(c *Ctx) {
 					c.oracleFail("C10/later-call-hangs/"+sc.name, "a call made after the failure did not return", line)
 				}
 				// model: the same schedule ends with the same accounting
-				if sc.name != "unmount" && sc.name != "enter-during-failure" {
+				if sc.name != "unmount" && !strings.HasSuffix(sc.name, "during-failure") {
 					evs = append(evs, "F")
 					for j := complete; j < K; j++ {
 						evs = append(evs, "o")
@@ -722,6 +733,10 @@ func genC10(c *Ctx) {
 						fmt.Sprintf("free=%d live=%d pend=%d woken=0 refused=3 err=%s", vi.FreeTags+vi.Cached,
 							poolSize-vi.FreeTags-vi.Cached, len(vi.Pending), b2s(vi.Err)), true)
 				}
+			}
+			if l := iow.line(); returned && l != "" {
+				c.count("clntio")
+				c.emit(l, "accept", true)
 			}
 			c.count("failure:" + sc.name)
 			if traceOn {
@@ -747,3 +762,53 @@ func ends0(ends []int, cut int) int {
 
 var _ = rand.Int
 var traceOn = os.Getenv("VERIF_TRACE") != ""
+
+// ioWatch logs the schedule points of one client's hand-off to its writer goroutine and of the shutdown
+// handshake (G9.ClntIO), in the order the client passed them.
+type ioWatch struct {
+	mu    sync.Mutex
+	toks  []string
+	ids   map[*g.Req]int
+	next  int
+	unsub func()
+}
+
+func startIOWatch(cl *g.Clnt) *ioWatch {
+	w := &ioWatch{ids: map[*g.Req]int{}}
+	w.unsub = subscribe(func(point string, args []interface{}) {
+		if len(args) == 0 {
+			return
+		}
+		if c, ok := args[0].(*g.Clnt); !ok || c != cl {
+			return
+		}
+		w.mu.Lock()
+		defer w.mu.Unlock()
+		switch point {
+		case "rpcnb.enqueued":
+			// a Req object is recycled: every call gets a number of its own
+			w.next++
+			w.ids[args[1].(*g.Req)] = w.next
+			w.toks = append(w.toks, fmt.Sprintf("E%d", w.next))
+		case "clnt.send.take":
+			w.toks = append(w.toks, fmt.Sprintf("T%d", w.ids[args[1].(*g.Req)]))
+		case "rpcnb.handoff":
+			w.toks = append(w.toks, fmt.Sprintf("H%d", w.ids[args[1].(*g.Req)]))
+		case "clnt.recv.closed":
+			w.toks = append(w.toks, "C")
+		case "clnt.recv.fanout":
+			w.toks = append(w.toks, "O")
+		}
+	})
+	return w
+}
+
+func (w *ioWatch) line() string {
+	w.unsub()
+	w.mu.Lock()
+	defer w.mu.Unlock()
+	if len(w.toks) == 0 {
+		return ""
+	}
+	return "clntio " + strings.Join(w.toks, " ")
+}
